@@ -42,7 +42,7 @@ ASSUMPTIONS = [
     'symbol tables are generated without STT_GNU_IFUNC / STB_GNU_UNIQUE and notes without annobin/stapsdt owners: the clone\'s '
     'description tables have no entries for them',
 ]
-KINDS = {'corpus': (288, 1011, 0), 'compiled': (24, 52, 1), 'descr': (60, 60, 2), 'dwdescr': (40, 40, 1), 'generated': (260, 2600, 4)}
+KINDS = {'corpus': (288, 1011, 0), 'compiled': (28, 63, 1), 'descr': (64, 64, 2), 'dwdescr': (40, 40, 1), 'generated': (260, 2600, 4)}
 FLOOR = {'quick': 150, 'thorough': 600}
 CASE_TIMEOUT = 1200
 OPTIONS = ['-e', '-d', '-s', '-n', '-r', '-x.text', '-p.shstrtab', '-V', '--debug-dump=info', '--debug-dump=decodedline',
@@ -179,9 +179,15 @@ def run_pair(path, option, timeout=600):
         return 'rc', 'clone raised: ' + r2[2].strip().splitlines()[-1][:160], n
     if r1[0] != 0 and r2[0] != 0:
         return 'skip', 'both programs reject the file', n
-    if r1[0] != 0 or r2[0] != 0:
+    if r2[0] != 0:
         return 'rc', 'return codes differ: readelf %s, clone %s: %s' % (r1[0], r2[0], (r2[2] or r1[2]).strip()[-160:]), n
     o1, o2 = r1[1], r2[1]
+    if r1[0] != 0:
+        # GNU readelf reports an error for the file and still prints: the file is outside the envelope unless both print the same
+        o1n = apply_text_findings(o1, o2)
+        if compare_output(o1n, o2)[0]:
+            return 'ok', '', n
+        return 'skip', 'GNU readelf reports an error for this file: ' + r1[2].strip()[-120:], n
     if option in ('--debug-dump=loc', '--debug-dump=Ranges'):
         o1, o2 = norm_base_lines(o1), norm_base_lines(o2)
     o1 = apply_text_findings(o1, o2)
@@ -291,7 +297,23 @@ OTHER_CFG = [('g++', 'c.cpp', ['-gdwarf-%d' % v, o, '-fPIC', '-c'], 'g++-dwarf%d
      ('g++', ('mm.cpp', 'c.cpp'), ['-g', '-O1'], 'g++-exe'), ('clang', ('m.c', 'a.c', 'b.c'), ['-gdwarf-4', '-O1'], 'clang-exe-dwarf4'),
      ('gcc', ('m.c', 'a.c', 'b.c'), ['-gdwarf-4', '-fdebug-types-section', '-O1'], 'gcc-exe-types4'),
      ('gcc', 'a.c', ['-g', '-O1', '-m32', '-c'], 'gcc-m32.o'), ('gcc', 'a.c', ['-g', '-gz', '-O1', '-c'], 'gcc-gz.o'),
-     ('gcc', 'a.c', ['-gdwarf-5', '-gdwarf64', '-O1', '-c'], 'gcc-dwarf64.o')]
+     ('gcc', 'a.c', ['-gdwarf-5', '-gdwarf64', '-O1', '-c'], 'gcc-dwarf64.o'),
+     # linker options that shape the dynamic section, hash tables, notes and version sections
+     ('gcc', ('a.c', 'b.c'), ['-g', '-O1', '-fPIC', '-shared', '-Wl,--version-script=' + os.path.join(VERIF_DIR, 'corpus', 'src', 'vers.map'),
+                              '-Wl,-soname,libcx.so.1'], 'gcc-so-verdef'),
+     ('gcc', ('m.c', 'a.c', 'b.c'), ['-g', '-O1', '-Wl,--hash-style=both', '-Wl,-z,now', '-Wl,--build-id=md5', '-Wl,-rpath=/opt/lib',
+                                     '-Wl,--disable-new-dtags', '-Wl,-z,nodelete'], 'gcc-exe-ldopts1'),
+     ('gcc', ('m.c', 'a.c', 'b.c'), ['-g', '-O1', '-Wl,--hash-style=sysv', '-Wl,-z,norelro', '-Wl,--build-id=0xabcdef0123456789', '-Wl,-rpath=/opt/lib',
+                                     '-Wl,-z,execstack', '-Wl,-z,ibt,-z,shstk', '-Wl,-z,separate-code'], 'gcc-exe-ldopts2'),
+     # the same program after the binutils tools worked on it
+     ('gcc', ('m.c', 'a.c', 'b.c'), ['-g', '-O1'], 'gcc-exe-only-keep-debug', [['objcopy', '--only-keep-debug', '{in}', '{out}']]),
+     ('gcc', ('m.c', 'a.c', 'b.c'), ['-g', '-O1'], 'gcc-exe-zlib', [['objcopy', '--compress-debug-sections=zlib', '{in}', '{out}']]),
+     ('gcc', ('m.c', 'a.c', 'b.c'), ['-g', '-O1'], 'gcc-exe-zlib-gnu', [['objcopy', '--compress-debug-sections=zlib-gnu', '{in}', '{out}']]),
+     ('gcc', ('m.c', 'a.c', 'b.c'), ['-g', '-O1'], 'gcc-exe-stripped', [['strip', '-o', '{out}', '{in}']]),
+     ('gcc', 'a.c', ['-g', '-O1', '-c', '-ffunction-sections', '-fdata-sections'], 'gcc-sections.o'),
+     ('gcc', ('a.c', 'b.c'), ['-m32', '-g', '-O1', '-fPIC', '-shared', '-nostdlib', '-Wl,--hash-style=both',
+                              '-Wl,--version-script=' + os.path.join(VERIF_DIR, 'corpus', 'src', 'vers.map')], 'gcc-m32-so-verdef'),
+     ('gcc', 'a.c', ['-mx32', '-g', '-O1', '-c'], 'gcc-x32.o'), ('g++', 'c.cpp', ['-m32', '-g', '-O1', '-w', '-c'], 'g++-m32.o')]
 
 
 def run_compiled(idx, rng, sh):
@@ -300,8 +322,10 @@ def run_compiled(idx, rng, sh):
     cfg = cfgs[(idx + (sh.seed if sh.tier == 'quick' else 0)) % len(cfgs)]
     with oracles.Scratch() as s:
         ver = 0
+        post = []
         if cfg[0] == 'other':
-            _, tool, srcname, flags, ident = cfg
+            _, tool, srcname, flags, ident = cfg[:5]
+            post = cfg[5] if len(cfg) > 5 else []
             out = os.path.join(s.d, ident)
             cmd = [tool] + flags + ['-o', out] + [os.path.join(VERIF_DIR, 'corpus', 'src', n) for n in ([srcname] if isinstance(srcname, str) else srcname)]
             if tool == 'gfortran':
@@ -326,6 +350,13 @@ def run_compiled(idx, rng, sh):
         if rc != 0 or not os.path.exists(out):
             sh.skip('%s cannot build %s' % (cmd[0], ident))
             return
+        for step, argv in enumerate(post):
+            nxt = out + '.%d' % step
+            rc, o, e = oracles.run([a.replace('{in}', out).replace('{out}', nxt) for a in argv], timeout=180) if oracles.have(argv[0]) else (1, '', '')
+            if rc != 0 or not os.path.exists(nxt):
+                sh.skip('%s cannot transform %s' % (argv[0], ident))
+                return
+            out = nxt
         for option in COMPILED_OPTS:
             if cfg[0] == 'clang' and ver == 5 and option == '--debug-dump=info':
                 sh.skip('clang DWARF 5 uses the index forms (strx/addrx/loclistx/rnglistx), which have no entry in the clone\'s attribute description map')
@@ -675,6 +706,17 @@ def descr_tables():
                                               ('ppc', E.ENUM_RELOC_TYPE_PPC, 20, 32, False, True)):
         ents = [(k, v) for k, v in enum.items() if isinstance(v, int) and (v < 256 or cls == 64)]
         T.append(('reloc/' + label, '-r', ents, reloc_builder(mach, cls, le, rela), relline))
+
+    # flag letters that depend on the machine or the OS ABI, reserved ranges, unknown bits, and their order
+    combos = [(mach, osabi, fl) for mach in (62, 40, 20, 3) for osabi in (0, 3, 9)
+              for fl in (0x80100003, 0x200003, 0x1000003, 0x90000003, 0x10000003, 0x400003, 0x90100003, 0x1003, 0x80200803, 0x20000006, 0xf0000000,
+                         0x0ff00000, 0x1200003)]
+
+    def specific_flag_builder(code):
+        mach, osabi, fl = combos[code]
+        return elfgen.build(cls=64 if mach == 62 else 32, le=True, machine=mach, etype=1, osabi=osabi,
+                            sections=[elfgen.Sec('.probe', 1, flags=fl, data=b'\0' * 8)])[0]
+    T.append(('sh_flags/machine-os', '-S', [('m%d.os%d.%x' % c, i) for i, c in enumerate(combos)], specific_flag_builder, secline))
 
     # the machine tables are chosen by machine alone: the same entries in the other file class (x32, MIPS o32, ARM, RV32)
     def sh_type_builder32(machine):
